@@ -1143,6 +1143,10 @@ void IGXMLScanner::scanEndTag(bool& gotData)
 
         }
     }
+    else if (fGrammarType == Grammar::SchemaGrammarType) {
+        // not validated (skip / lax wildcard): its xsi:nil must not be seen by the parent's checkContent
+        ((SchemaValidator*)fValidator)->resetNillable();
+    }
 
     // QName dv needed topElem to resolve URIs on the checkContent
     fElemStack.popTop();
